@@ -1,5 +1,5 @@
 """Texts for MANIFEST.json."""
-HOOK_COMMITS = ["3a899bd", "d84b5a0", "f4cc99e", "d898578"]
+HOOK_COMMITS = ["3a899bd", "d84b5a0", "f4cc99e", "d898578", "f3c8c25"]
 
 NOTES = ("All checks: ./check <id> --tier quick|thorough. Technique family: machine-checked proof in Lean 4 over executable models, "
          "tied to the source by a per-run correspondence (see DESIGN.md). Properties listed under not_applicable are not yet "
@@ -110,6 +110,20 @@ META = {
         "note": ("partial: fsync/rename/bbolt atomicity are assumptions; the kill runs validate the model against the runtime. trusted: "
                  "Lean kernel, Go harness, SIGKILL as crash model."),
         "technique": "Lean 4 proof (durable-state invariant, crash_safe) + step monitoring of hooked durable events in Lean + kill/reopen differential judged by the Lean history monitor",
+    },
+    "C12": {
+        "text": ("Lean model of file retention over the durable-state model of C03: root.bolt snapshots with the files they name, "
+                 "files on disk, files used by open readers. Theorems for every trace of steps whose side conditions hold: every "
+                 "needed file (named by a committed snapshot or used by an open reader) exists, so Open at that moment loads the "
+                 "newest snapshot (always_openable); the purger's fixpoint keeps exactly the needed files (purgeAll_exact) and "
+                 "removes nothing needed (purgeAll_inv). The real persister, merger and purger report their steps through verif "
+                 "hooks, the harness reports the readers it opens and closes with the files they use, and each step is checked "
+                 "against the side conditions in Lean; the quiescent directory listing and root.bolt epochs are compared with "
+                 "the model's; descriptors are counted after Close."),
+        "design_ref": "DESIGN.md section 4, C12",
+        "note": ("known finding: scorch removes segment files that an open reader still uses once no committed snapshot names them "
+                 "(the mapping stays valid on POSIX, the path is gone). trusted: Lean kernel, Go harness, file-system observations."),
+        "technique": "Lean 4 proof (retention invariant, purge fixpoint) + step monitoring of hooked durable events and reader lifetimes in Lean + directory/descriptor differential",
     },
     "C04": {
         "text": ("Two proved parts. (1) Snapshot algebra (Props/Snapshot.lean): every root the introducer can produce is the replay of "
